@@ -5,6 +5,7 @@ EXTENDS XpmScheduler
 Sub(n) == [op |-> "submit", n |-> n]
 W == [op |-> "wait", n |-> NONE]
 WJ(n) == [op |-> "waitjob", n |-> n]
+WS == [op |-> "wait", n |-> "sigint"]     \* a wait during which Ctrl-C may arrive
 K == [op |-> "kill", n |-> NONE]
 R == [op |-> "restart", n |-> NONE]
 
@@ -82,6 +83,15 @@ KillRestartTok(fix) ==
      [a |-> [t |-> 1], b |-> [t |-> 1]], Ok({"a", "b"}),
      <<Sub("a"), Sub("b"), K, R, Sub("a"), Sub("b"), W>>, fix)
 
+(* Ctrl-C during the wait, then the same experiment again *)
+StopRestart(codes, fix) ==
+  Mk({"a", "b"}, One({"a", "b"}), [a |-> {}, b |-> {"a"}], {}, NoTok, NoReq({"a", "b"}), codes,
+     <<Sub("a"), Sub("b"), WS, R, Sub("a"), Sub("b"), W>>, fix)
+StopRestartTok(fix) ==
+  Mk({"a", "b"}, One({"a", "b"}), [a |-> {}, b |-> {}], {"t"}, [t |-> 1],
+     [a |-> [t |-> 1], b |-> [t |-> 1]], Ok({"a", "b"}),
+     <<Sub("a"), Sub("b"), WS, R, Sub("a"), Sub("b"), W>>, fix)
+
 Codes3 == {[a |-> <<x>>, b |-> <<y>>, c |-> <<z>>] : x, y, z \in {0, 1}}
 
 WorkloadsDag == {Chain3(c, AllFixed) : c \in Codes3}
@@ -93,6 +103,8 @@ WorkloadsTok == {Tok(3, 2, 2, 1, Ok({"a", "b", "c"}), AllFixed), Tok(3, 1, 1, 3,
 WorkloadsSub == {Dup(AllFixed), Resubmit(AllFixed), ResubmitEarly(AllFixed)}
 WorkloadsRestart == {Rerun(Ok({"a", "b"}), AllFixed), Rerun([a |-> <<1, 0>>, b |-> <<0>>], AllFixed),
                      KillRestart(AllFixed), KillRestartTok(AllFixed)}
+WorkloadsStop == {StopRestart(Ok({"a", "b"}), AllFixed), StopRestart([a |-> <<1, 0>>, b |-> <<0>>], AllFixed),
+                  StopRestartTok(AllFixed)}
 WorkloadsPinned == {Tok2(1, 1, 1, {}), Tok(3, 2, 2, 1, Ok({"a", "b", "c"}), {"F4"}), Resubmit({"F2", "F4"})}
 
 CONSTANT Family
@@ -100,6 +112,7 @@ Workloads == CASE Family = "dag" -> WorkloadsDag
                [] Family = "tok" -> WorkloadsTok
                [] Family = "sub" -> WorkloadsSub
                [] Family = "restart" -> WorkloadsRestart
+               [] Family = "stop" -> WorkloadsStop
                [] Family = "live" -> {Tok2(1, 1, 1, AllFixed), Tok2(2, 1, 2, AllFixed), Resubmit(AllFixed),
                                       Chain3([a |-> <<0>>, b |-> <<1>>, c |-> <<0>>], AllFixed)}
                [] Family = "pinnedF4" -> {Tok2(1, 1, 1, {"F2", "F3"})}
